@@ -87,31 +87,37 @@ EscChar(c) == CASE c = 92 -> <<92, 92>> [] c = 34 -> <<92, 34>> [] c = 47 -> <<9
                 [] OTHER -> <<c>>
 \* "JSON-style escaped": JSON makes the escape of the solidus optional ("\/" and "/" are both JSON); sol says whether the
 \* rendering escapes it. Everything else is escaped in the one way JSON has for it.
-RECURSIVE Escape(_, _)
-Escape(s, sol) == IF s = <<>> THEN <<>>
-                  ELSE (IF Head(s) = 47 /\ ~sol THEN <<47>> ELSE EscChar(Head(s))) \o Escape(Tail(s), sol)
+\* the other control characters (below U+0020): JSON writes them \u00XX; leaving them as they are is what the library did
+Hex(d) == IF d < 10 THEN 48 + d ELSE 87 + d
+OtherCtl(c) == c >= 0 /\ c < 32 /\ c \notin {8, 9, 10, 12, 13}
+RECURSIVE Escape(_, _, _)
+Escape(s, sol, ctl) == IF s = <<>> THEN <<>>
+                       ELSE (IF Head(s) = 47 /\ ~sol THEN <<47>>
+                             ELSE IF ctl /\ OtherCtl(Head(s)) THEN <<92, 117, 48, 48, Hex(Head(s) \div 16), Hex(Head(s) % 16)>>
+                             ELSE EscChar(Head(s))) \o Escape(Tail(s), sol, ctl)
 
 \* RenderSeq(items, i, vars) = <<output up to the matching close or the end, index after it>>
-RECURSIVE RenderSeq(_, _, _, _)
-RenderSeq(items, i, vars, sol) ==
+RECURSIVE RenderSeq(_, _, _, _, _)
+RenderSeq(items, i, vars, sol, ctl) ==
   IF i > Len(items) THEN <<<<>>, i>>
   ELSE LET x == items[i] IN
        IF x[1] = "close" THEN <<<<>>, i + 1>>
        ELSE IF x[1] \in {"open", "openinv"}
-            THEN LET body == RenderSeq(items, i + 1, vars, sol)
-                     rest == RenderSeq(items, body[2], vars, sol)
+            THEN LET body == RenderSeq(items, i + 1, vars, sol, ctl)
+                     rest == RenderSeq(items, body[2], vars, sol, ctl)
                      show == IF x[1] = "open" THEN Defined(vars, x[3]) ELSE ~Defined(vars, x[3])
                  IN <<(IF show THEN body[1] ELSE <<>>) \o rest[1], rest[2]>>
-            ELSE LET rest == RenderSeq(items, i + 1, vars, sol)
+            ELSE LET rest == RenderSeq(items, i + 1, vars, sol, ctl)
                      here == CASE x[1] = "text" -> x[2]
                                [] x[1] = "var" -> ValueOf(vars, x[3])
-                               [] x[1] = "esc" -> Escape(ValueOf(vars, x[3]), sol)
+                               [] x[1] = "esc" -> Escape(ValueOf(vars, x[3]), sol, ctl)
                                [] OTHER -> <<>>
                  IN <<here \o rest[1], rest[2]>>
-RenderWith(items, vars, sol) == RenderSeq(items, 1, vars, sol)[1]
+RenderWith2(items, vars, sol, ctl) == RenderSeq(items, 1, vars, sol, ctl)[1]
+RenderWith(items, vars, sol) == RenderWith2(items, vars, sol, FALSE)
 Render(items, vars) == RenderWith(items, vars, TRUE)
 \* is `out` a rendering of the template: with the solidus escaped throughout, or left as it is throughout
-IsRendering(out, items, vars) == out = RenderWith(items, vars, TRUE) \/ out = RenderWith(items, vars, FALSE)
+IsRendering(out, items, vars) == \E sol \in BOOLEAN, ctl \in BOOLEAN : out = RenderWith2(items, vars, sol, ctl)
 
 \* names in variable position, folded, in order of first occurrence (C18)
 RECURSIVE NameKeys(_, _, _)
